@@ -2,11 +2,11 @@ import Octo.Model.SqlOk
 /-!
 # The printer in explicit form (C30)
 
-For every node: what `printE/printT/printS` produces once the generated template (`Octo.Sql.Gen.fmt_*`) has been
+For every node: what `printE/printT/printS` produces once the generated template (`Octo.SqlSyn.Gen.fmt_*`) has been
 interpreted.  Each lemma is proved by evaluating the interpreter on the template **as extracted from the current
 ast.go** — a changed format string makes the corresponding lemma (and the round-trip theorem built on it) fail.
 -/
-namespace Octo.Sql
+namespace Octo.SqlSyn
 open Gen
 
 attribute [local simp] Fmt.run runSteps runPieces evalConds lookup ListFmt.run
@@ -249,4 +249,4 @@ theorem printS_head (s : Sel) (h : s.isStmt = true) :
   | with_ ctes s => exact ⟨_, Or.inr (printS_with ctes s)⟩
   | cte => simp [Sel.isStmt] at h
 
-end Octo.Sql
+end Octo.SqlSyn
